@@ -90,7 +90,7 @@ def check(rep):
             layout = "mdat_first" if v % 3 != 2 else "moov_first"
             extra = [] if v % 2 == 0 else [junk(rng) for _ in range(rng.randint(1, 2))]
             t2 = copy.deepcopy(trs)
-            r, tracks, nodes = isogen.build_movie(t2, layout, extra_top=extra, udta=copy.deepcopy(udta) if g % 2 else None)
+            r, tracks, nodes = isogen.build_movie(t2, layout, extra_top=extra, udta=copy.deepcopy(udta) if g % 2 else None, large_mdat=(v in (3, 5)))
             if v > 0 and layout == "mdat_first":
                 # transform everything after the mdat (the moov) and the ftyp; offsets do not move
                 nodes = [transform(nodes[0], rng) if False else nodes[0]] + nodes[1:-1] + [transform(nodes[-1], rng)]
@@ -131,7 +131,7 @@ def check(rep):
             if profile == "debug":
                 stats["open_ok"] += 1 if impl.get("open") == "ok" else 0
     rep.coverage.update({"evaluations": 2 * len(flat), "distinct_nontrivial": len(set(d for _, _, _, d, _ in flat)),
-                         "rule": "logical movies from the C03 generator (1-2 tracks, all kinds, with/without metadata) x layout variants: media data before/after the movie header, "
+                         "rule": "logical movies from the C03 generator (1-2 tracks, all kinds, with/without metadata) x layout variants: media data before/after the movie header, 32- or 64-bit size header on the media data box, "
                                  "free/unknown boxes (32- and 64-bit headers) inserted at the top level and at random positions inside moov/trak/mdia/minf/stbl/udta/mvex, siblings of "
                                  "different types shuffled, 64-bit size headers on any box, spare bytes after fixed-layout and table boxes; every variant compared with the base layout",
                          "input_distribution": stats})
